@@ -43,7 +43,7 @@ func TestC23(t *testing.T) {
 		"the index of a map entry in a path cannot be tied to a key: a path through a map value resolves if it resolves in some entry",
 	})
 	c23Fixed(r)
-	n := r.N(400, 5000)
+	n := r.N(800, 15000)
 	r.Par(n, func(i int) {
 		id := fmt.Sprintf("g/%d", i)
 		if !r.Want(id) {
